@@ -223,7 +223,9 @@ def replay(spec, ctx):
 @st.composite
 def flow_cases(draw, dim):
     facs = [f for f in bd.FACTORIES if (dim > 1 or f != "coupling_flow") and (dim == 1 or f != "block_neural_autoregressive_flow")]
-    sp = draw(gen.flow_spec(dim, facs))
+    sp = draw(gen.flow_spec(dim, facs + ["planar_flow"]))  # planar twice: its constraint only bites far from init (seeded C04_A)
+    if sp["factory"] == "planar_flow" and draw(st.booleans()):
+        sp["cond_dim"] = None
     sp["dim"] = dim
     sp["pscale"] = draw(st.sampled_from([0.1, 0.3] if dim == 1 else [0.1, 0.2]))
     if sp["factory"] == "planar_flow":
